@@ -35,7 +35,7 @@ RULE = (
     "(fault-free + faulted); distinct_nontrivial = distinct (target kind, site, k, exception class, "
     "outcome class) placements whose fault actually fired, plus distinct fault-free (kind, outcome) cells."
 )
-REACH = ['fault_fired:duck.shape', 'fault_fired:duck.dtype', 'fault_fired:atype.instancecheck', 'fault_fired:leaf.instancecheck', 'fault_fired:node.flatten', 'fault_fired:fmt.attr', 'fault_fired:fmt.format', 'faultfree:arr:False', 'faultfree:tree:False', 'faultfree:arr:raise', 'faultfree:tree:raise']  # counters (prefixes) that a healthy batch makes non-zero; gaps are reported in the evidence
+REACH = ['fault_fired:duck.shape', 'fault_fired:duck.dtype', 'fault_fired:atype.instancecheck', 'fault_fired:leaf.instancecheck', 'fault_fired:node.flatten', 'fault_fired:node.unflatten', 'fault_fired:fmt.attr', 'fault_fired:fmt.format', 'faultfree:arr:False', 'faultfree:tree:False', 'faultfree:arr:raise', 'faultfree:tree:raise']  # counters (prefixes) that a healthy batch makes non-zero; gaps are reported in the evidence
 BUDGET = {"quick": 40, "thorough": 600}
 ASSUMPTIONS = [
     "faults are exceptions thrown from code jaxtyping calls (array attributes, metaclass __instancecheck__, "
